@@ -298,7 +298,16 @@ pub fn run(ctx: &Ctx) -> (&'static str, &'static str) {
             let g = Group::<T19X2>::build();
             let lambdas: Vec<F19x2> = vec![Fp2::new(1, 0), Fp2::new(2, 0), Fp2::new(18, 0), Fp2::new(0, 1), Fp2::new(3, 5), Fp2::new(7, 18)];
             let ids: Vec<(F19x2, F19x2)> = vec![(Fp2::new(0, 0), Fp2::new(1, 0)), (Fp2::new(0, 0), Fp2::new(0, 0)), (Fp2::new(5, 6), Fp2::new(7, 8)), (Fp2::new(1, 0), Fp2::new(1, 0))];
-            let lam = if ctx.quick() { &lambdas[..3] } else { &lambdas[..] };
+            let more: Vec<F19x2> = (0..18).map(|k| Fp2::new(1 + (k * 7) % 18, (k * 5 + 2) % 19)).collect();
+        let mut lambdas = lambdas;
+        if !ctx.quick() {
+            for l in more {
+                if !lambdas.contains(&l) {
+                    lambdas.push(l);
+                }
+            }
+        }
+        let lam = if ctx.quick() { &lambdas[..3] } else { &lambdas[..] };
             let v = g.all_proj(lam, &ids);
             let w = g.all_aff();
             ctx.extra("toy(19^2) group", json!({"order": g.n(), "exponent": g.exponent, "projective_values": v.len(), "affine_values": w.len()}));
